@@ -105,11 +105,24 @@ type Result struct {
 
 func (r *Result) OK() bool { return r.Err == nil && r.Panic == "" }
 
+// addrOf is the canonical (lower-case) address string of an actor name: what the state and the
+// reference model know an account by. "<actor>^" names the same account (see msgAddr).
 func addrOf(name string) string {
-	if a, ok := world.Actors[name]; ok {
+	if a, ok := world.Actors[strings.TrimSuffix(name, "^")]; ok {
 		return a.Bech32
 	}
 	return name // raw (possibly malformed) address string
+}
+
+// msgAddr is the string put into a message for an actor name: "<actor>^" is the same account written
+// in the all-upper-case form that bech32 also allows.
+func msgAddr(name string) string {
+	if strings.HasSuffix(name, "^") {
+		if a, ok := world.Actors[strings.TrimSuffix(name, "^")]; ok {
+			return strings.ToUpper(a.Bech32)
+		}
+	}
+	return addrOf(name)
 }
 
 func mustDec(s string) math.LegacyDec {
@@ -168,34 +181,34 @@ func (o Op) Msg(w *world.World) sdk.Msg {
 	switch o.Kind {
 	case "create_fixed":
 		return &ftypes.MsgCreateFixedPriceAuction{
-			Auctioneer: addrOf(o.Signer), StartPrice: mustDec(o.StartPrice), SellingCoin: parseCoinLoose(o.Sell),
+			Auctioneer: msgAddr(o.Signer), StartPrice: mustDec(o.StartPrice), SellingCoin: parseCoinLoose(o.Sell),
 			PayingCoinDenom: o.PayDenom, VestingSchedules: o.schedules(),
 			StartTime: world.Instant(o.StartK), EndTime: world.Instant(o.EndK),
 		}
 	case "create_batch":
 		return &ftypes.MsgCreateBatchAuction{
-			Auctioneer: addrOf(o.Signer), StartPrice: mustDec(o.StartPrice), MinBidPrice: mustDec(o.MinPrice),
+			Auctioneer: msgAddr(o.Signer), StartPrice: mustDec(o.StartPrice), MinBidPrice: mustDec(o.MinPrice),
 			SellingCoin: parseCoinLoose(o.Sell), PayingCoinDenom: o.PayDenom, VestingSchedules: o.schedules(),
 			MaxExtendedRound: o.MaxExt, ExtendedRoundRate: mustDec(o.Rate),
 			StartTime: world.Instant(o.StartK), EndTime: world.Instant(o.EndK),
 		}
 	case "cancel":
-		return &ftypes.MsgCancelAuction{Auctioneer: addrOf(o.Signer), AuctionId: o.AID}
+		return &ftypes.MsgCancelAuction{Auctioneer: msgAddr(o.Signer), AuctionId: o.AID}
 	case "place":
-		return &ftypes.MsgPlaceBid{AuctionId: o.AID, Bidder: addrOf(o.Signer), BidType: ftypes.BidType(o.BidType),
+		return &ftypes.MsgPlaceBid{AuctionId: o.AID, Bidder: msgAddr(o.Signer), BidType: ftypes.BidType(o.BidType),
 			Price: mustDec(o.Price), Coin: rawCoin(o.Denom, o.Amt)}
 	case "modify":
-		return &ftypes.MsgModifyBid{AuctionId: o.AID, Bidder: addrOf(o.Signer), BidId: o.BidID,
+		return &ftypes.MsgModifyBid{AuctionId: o.AID, Bidder: msgAddr(o.Signer), BidId: o.BidID,
 			Price: mustDec(o.Price), Coin: rawCoin(o.Denom, o.Amt)}
 	case "msg_add_allowed":
 		return &ftypes.MsgAddAllowedBidder{AuctionId: o.AID, AllowedBidder: ftypes.AllowedBidder{
-			AuctionId: o.AID, Bidder: addrOf(o.Bidder), MaxBidAmount: mustInt(o.Max)}}
+			AuctionId: o.AID, Bidder: msgAddr(o.Bidder), MaxBidAmount: mustInt(o.Max)}}
 	case "update_params":
 		auth := o.Authority
 		if auth == "gov" {
 			auth = w.K.GetAuthority()
 		} else {
-			auth = addrOf(auth)
+			auth = msgAddr(auth)
 		}
 		return &ftypes.MsgUpdateParams{Authority: auth, Params: ftypes.Params{
 			AuctionCreationFee: parseCoinsLoose(o.CreationFee), PlaceBidFee: parseCoinsLoose(o.BidFee), ExtendedPeriod: o.ExtPeriod}}
@@ -308,7 +321,7 @@ func (o Op) Apply(w *world.World, ctx sdk.Context) (sdk.Context, Result) {
 				}
 			}()
 			if o.Kind == "add_allowed" {
-				res.Err = w.K.AddAllowedBidders(cctx, o.AID, []ftypes.AllowedBidder{{AuctionId: o.AID, Bidder: addrOf(o.Bidder), MaxBidAmount: mustInt(o.Max)}})
+				res.Err = w.K.AddAllowedBidders(cctx, o.AID, []ftypes.AllowedBidder{{AuctionId: o.AID, Bidder: msgAddr(o.Bidder), MaxBidAmount: mustInt(o.Max)}})
 			} else {
 				res.Err = w.K.UpdateAllowedBidder(cctx, o.AID, world.A(o.Bidder).Addr, mustInt(o.Max))
 			}
